@@ -396,7 +396,64 @@ def late_hub_tree(n, seed):
     return A
 
 
+def tri_cactus(t, seed=0, relabel=True):
+    """t triangles strung together by t-1 connector nodes (each adjacent to one node of two consecutive triangles):
+    every connection starts on a triangle or is a bridge-like link, and once rewiring has broken the triangles most
+    further swaps cut the graph"""
+    rs = np.random.RandomState(seed)
+    n = 3 * t + (t - 1)
+    A = np.zeros((n, n))
+    for i in range(t):
+        a = 3 * i
+        for u, v in ((a, a + 1), (a + 1, a + 2), (a, a + 2)):
+            A[u, v] = A[v, u] = 1
+    for i in range(t - 1):
+        c = 3 * t + i
+        u = 3 * i + rs.randint(3)
+        v = 3 * (i + 1) + rs.randint(3)
+        A[c, u] = A[u, c] = A[c, v] = A[v, c] = 1
+    if relabel:
+        p = rs.permutation(n)
+        A = A[np.ix_(p, p)]
+    return A
+
+
+def reversed_comb(k):
+    """node i joined to node n-1-i (i < k), then the path k .. n-1: with low-index roots a merging structure is driven
+    into one long parent chain"""
+    n = 2 * k
+    A = np.zeros((n, n))
+    for i in range(k):
+        A[i, n - 1 - i] = A[n - 1 - i, i] = 1
+    for i in range(k, n - 1):
+        A[i, i + 1] = A[i + 1, i] = 1
+    return A
+
+
+def numbered_path(n, mode, seed=0):
+    """a path of n nodes visited in a chosen order of the node numbers: natural, reversed, evens-then-odds,
+    bit-reversed, outside-in, random"""
+    if mode == 'natural':
+        order = np.arange(n)
+    elif mode == 'reversed':
+        order = np.arange(n)[::-1]
+    elif mode == 'evenodd':
+        order = np.r_[np.arange(0, n, 2), np.arange(1, n, 2)]
+    elif mode == 'outside_in':
+        order = np.array([i // 2 if i % 2 == 0 else n - 1 - i // 2 for i in range(n)])
+    elif mode == 'bitrev':
+        b = max(1, int(np.ceil(np.log2(n))))
+        order = np.array(sorted(range(n), key=lambda x: int(format(x, '0%db' % b)[::-1], 2)))
+    else:
+        order = np.random.RandomState(seed).permutation(n)
+    A = np.zeros((n, n))
+    A[order[:-1], order[1:]] = 1
+    A[order[1:], order[:-1]] = 1
+    return A
+
+
 NAMED = {
+    'tri_cactus': tri_cactus, 'reversed_comb': reversed_comb, 'numbered_path': numbered_path,
     'path': path, 'cycle': cycle, 'star': star, 'wheel': wheel, 'complete': complete, 'kab': kab,
     'circulant': circulant, 'hypercube': hypercube, 'grid': grid, 'prufer': prufer_tree,
     'tree_chords': tree_chords, 'barbell': barbell, 'ring_of_cliques': ring_of_cliques,
@@ -456,6 +513,10 @@ def weigh(A, scheme, seed, symmetric):
         Wt = 10.0 ** rs.uniform(-12, 0, size=(n, n))
     elif scheme == 'decimal':   # k/10: equal real lengths whose float sums differ in the last bit (rounding-level ties)
         Wt = rs.randint(1, 10, size=(n, n)) / 10.0
+    elif scheme == 'absorb':    # one-decimal lengths mixed with lengths so short (1e-17..1e-16) that adding one to the
+        Wt = rs.randint(1, 10, size=(n, n)) / 10.0       # rest of a route does not change the float sum at all
+        tiny = rs.rand(n, n) < (.3, .75, .9)[seed % 3]
+        Wt[tiny] = (rs.randint(1, 10, size=int(tiny.sum())) * 1e-17 if seed % 2 else 10.0 ** rs.uniform(-17, -16, size=int(tiny.sum())))
     elif scheme == 'neartie':   # exactly representable lengths that differ by ~1e-6: near-ties that are not ties
         Wt = rs.randint(1, 4, size=(n, n)) + rs.randint(0, 3, size=(n, n)) * 2.0 ** -20
     elif scheme == 'bigint':    # large integers differing by 1 (relative difference 2e-6)
